@@ -34,7 +34,9 @@ func run(h *common.History) {
 	for i := 0; i < k && 5+k+i < len(c); i++ {
 		local = append(local, ipOf(uint32(common.AtoU64(c[5+k+i]))))
 	}
-	n, err := vnet.VerifNewNAT(c[0] != "0", common.AtoI(c[1]), common.AtoI(c[2]), time.Duration(common.AtoI(c[3])), mapped, local)
+	flags := common.AtoI(c[0]) // bit 0: 1:1 mode; bits 1, 2: the options PortPreservation and Hairpinning ("not implemented yet")
+	n, err := vnet.VerifNewNAT(flags&1 != 0, common.AtoI(c[1]), common.AtoI(c[2]), time.Duration(common.AtoI(c[3])), mapped, local,
+		flags&2 != 0, flags&4 != 0)
 	if err != nil {
 		panic(err)
 	}
@@ -87,7 +89,14 @@ func gen(r *rand.Rand, long bool) *common.History {
 	mb, fb := r.IntN(3), r.IntN(3)
 	life := []int64{0, 30e9, 5e9, 1e9, 100e6}[r.IntN(5)]
 	k := 1 + r.IntN(3)
-	h.Conf = []string{common.B(oneToOne), common.I(mb), common.I(fb), common.I(life), common.I(k)}
+	flags := 0
+	if oneToOne {
+		flags = 1
+	}
+	if r.IntN(3) == 0 {
+		flags |= 2 * (1 + r.IntN(3)) // PortPreservation and / or Hairpinning requested
+	}
+	h.Conf = []string{common.I(flags), common.I(mb), common.I(fb), common.I(life), common.I(k)}
 	natIPs := make([]uint32, k)
 	locIPs := make([]uint32, k)
 	for i := 0; i < k; i++ {
@@ -134,6 +143,11 @@ func gen(r *rand.Rand, long bool) *common.History {
 		internals = []ep{{lanBase + 0x02, 1234}, {lanBase + 0x02, 123}, {lanBase + 0x02, 11}, {lanBase + 0x15, 1}, {lanBase + 0x65, 1000}}
 		remotes = []ep{{0x05060708, 80}, {0x2D060708, 80}, {0x05060708, 8}, {0x05060708, 808}, {0x2D060708, 8}, {wanBase + 0x50, 80}}
 		h.Tags = append(h.Tags, "separator_collision_endpoints")
+	}
+	if flags&2 != 0 {
+		// local ports inside the range the NAT allocates from
+		internals = append(internals, ep{lanBase + 0x65, 0xC000}, ep{lanBase + 0x66, 0xC000}, ep{lanBase + 0x66, 0xC001})
+		h.Tags = append(h.Tags, "local_ports_in_dynamic_range")
 	}
 	var external []ep // addresses handed out so far
 	now := int64(0)
